@@ -90,7 +90,7 @@ pub fn apply(w: &mut RouterWorld, cfg: &Cfg, a: &Act) {
             } else {
                 // a connection without a will leaves an earlier registration untouched in the
                 // router only for takeovers, which C16 excludes; the model drops it
-                w.model.wills.remove(NAMES[ci]);
+                w.model.forget_will(NAMES[ci]);
             }
             // variants 100 / 101: room for ten broker-side aliases; 102: for one only (two
             // topics compete for it)
